@@ -383,9 +383,6 @@ pub fn run_stack<S: Spec, IC: IcKind<Idx<S>> + Default>(
                         slots[si].model.push(v.clone());
                         slots[si].predicted.push(p);
                     }
-                    if *hint > 0 && !vs.is_empty() {
-                        slots[si].ic_untouched = false;
-                    }
                     stats.copies += vs.len();
                     ev.hit("op:extend");
                     if had == 0 && !vs.is_empty() {
@@ -405,7 +402,7 @@ pub fn run_stack<S: Spec, IC: IcKind<Idx<S>> + Default>(
                         sl.model.push(v.clone());
                         sl.predicted.push(p);
                     }
-                    sl.ic_untouched = *hint == 0 || vs.is_empty();
+                    sl.ic_untouched = true;
                     slots[si] = sl;
                     stats.copies += vs.len();
                     ev.hit("op:from_iter");
@@ -415,7 +412,7 @@ pub fn run_stack<S: Spec, IC: IcKind<Idx<S>> + Default>(
                     let st = guard(|| FlatStack::<S::R, IC>::with_capacity(*n as usize)).map_err(|p| e(format!("with_capacity panicked: {p}")))?;
                     let mut sl = SSlot::<S, IC>::fresh();
                     sl.st = st;
-                    sl.ic_untouched = *n == 0;
+                    sl.ic_untouched = true;
                     slots[si] = sl;
                     ev.hit("op:with_capacity");
                 }
@@ -423,9 +420,6 @@ pub fn run_stack<S: Spec, IC: IcKind<Idx<S>> + Default>(
                     let si = *slot as usize % 2;
                     let st = &mut slots[si].st;
                     guard(|| st.reserve(*n as usize)).map_err(|p| e(format!("reserve panicked: {p}")))?;
-                    if *n > 0 {
-                        slots[si].ic_untouched = false;
-                    }
                     ev.hit("op:reserve");
                 }
                 SOp::ReserveItems { slot, vs, form } => {
@@ -531,7 +525,7 @@ pub fn run_stack<S: Spec, IC: IcKind<Idx<S>> + Default>(
                     sl.st = merged;
                     sl.m = S::model_merged();
                     sl.trained = if S::CODED { Some(trained) } else { None };
-                    sl.ic_untouched = total == 0;
+                    sl.ic_untouched = true;
                     sl.pure = false;
                     slots[di] = sl;
                     ev.hit("op:merge_capacity");
